@@ -9,6 +9,8 @@ import AdaVerif.Lemmas.AggSetPathname
 import AdaVerif.Lemmas.KernIs4
 import AdaVerif.Lemmas.HostFixed
 import AdaVerif.Lemmas.HostParse
+import AdaVerif.Lemmas.AggHostSetter
+import AdaVerif.Lemmas.ParseAgg
 /-
 C15: the models of ada's canonicalize_* callbacks (Model/PatternCanon.lean) are the URL Pattern Standard's
 canonicalisation callbacks (Spec/Pattern.lean), for every value.
@@ -716,6 +718,137 @@ theorem protocol_eq (idna : Idna) (L : Nat) (v : Bytes) (hne : v ≠ [])
               · rw [e]; exact h3
               · exact h4 b e
             rw [this]
+
+/-! ### `canonicalize_hostname`: the slow route -/
+
+/-- the dummy URL of `canonicalize_hostname` as a record -/
+def uDummy : Url := { scheme := bHttps, host := some (.domain [0x64,0x75,0x6D,0x6D,0x79,0x2E,0x74,0x65,0x73,0x74]), path := [[]] }
+
+theorem dummyUrl_layout : dummyUrl = Agg.layout (AggL.ofUrl uDummy) := by decide +kernel
+theorem uDummy_inv : RecInv uDummy = true := by decide +kernel
+
+theorem takeWhile_takeWhile (p q : UInt8 → Bool) (l : Bytes) : (l.takeWhile p).takeWhile q = l.takeWhile (fun x => p x && q x) := by
+  induction l with
+  | nil => rfl
+  | cons c r ih =>
+    by_cases hp : p c = true
+    · by_cases hq : q c = true
+      · simp [List.takeWhile_cons, hp, hq, ih]
+      · simp [List.takeWhile_cons, hp, hq]
+    · simp [List.takeWhile_cons, hp]
+
+theorem take_length_takeWhile (p : UInt8 → Bool) (l : Bytes) : l.take (l.takeWhile p).length = l.takeWhile p := by
+  induction l with
+  | nil => rfl
+  | cons c r ih =>
+    by_cases hp : p c = true
+    · simp [List.takeWhile_cons, hp, ih]
+    · simp [List.takeWhile_cons, hp]
+
+theorem term_split : ∀ b : UInt8, ((b != 0x23) && !AdaVerif.Model.UrlRec.isHardDelim true b) = !Spec.Pattern.isHostTerminator b := by
+  unfold AdaVerif.Model.UrlRec.isHardDelim; apply forall_uint8_of_fin; decide +kernel
+
+open AdaVerif.Model.Agg AdaVerif.Lemmas.AggL in
+/-- the host text of a laid-out buffer without credentials -/
+theorem getHostname_nocred (l : L) (hu : l.user = []) (hp : l.pass = []) (hh : l.host.headD 0 ≠ 0x40) :
+    getHostname (layout l) = l.host := by
+  have hslice := hostSlice_layout l
+  have hat0 : atS l.user l.pass = [] := by simp [atS, hu, hp]
+  rw [hat0, List.nil_append] at hslice
+  unfold getHostname
+  by_cases hgt : (layout l).he > (layout l).hs
+  · have hb : (layout l).buf = (l.scheme ++ authS l.auth ++ (l.user ++ passS l.pass)) ++ (l.host ++
+        (portS l.port ++ (ddS l.dashdot ++ (l.path ++ (queryS l.query ++ fragS l.frag))))) := by
+      simp [layout, List.append_assoc, hat0]
+    have hne : l.host ≠ [] := by
+      intro e
+      have : (layout l).he = (layout l).hs := by simp [layout, e, hat0]
+      omega
+    have hat : at_ (layout l).buf (layout l).hs = l.host.headD 0 := by
+      rw [at_eq hb (hs_eq l)]
+      cases hl : l.host with
+      | nil => exact absurd hl hne
+      | cons c t => rfl
+    have : (at_ (layout l).buf (layout l).hs == 0x40) = false := by rw [hat]; simpa using hh
+    simp only [this, Bool.and_false, Bool.false_eq_true, ↓reduceIte]
+    exact hslice
+  · have : decide ((layout l).he > (layout l).hs) = false := by simpa using hgt
+    simp only [this, Bool.false_and, Bool.false_eq_true, ↓reduceIte]
+    exact hslice
+
+open AdaVerif.Model.Agg AdaVerif.Lemmas.AggL in
+/-- **the slow route of `canonicalize_hostname`** (dummy URL "https://dummy.test", `set_hostname`, `get_hostname`) is the hostname
+    state with a state override on a special URL record: same failures (a ':' outside brackets, an empty host, a host the
+    host parser refuses), same serialised host - for a configured maximum length that admits the dummy URL and the result,
+    under the bracket condition of the host setters and with IDNA as a parameter -/
+theorem hostname_slow (idna : Idna) (L : Nat) (v : Bytes) (hne : v ≠ []) (hid : ∀ d, HP.IdnaAt idna d)
+    (hclean : HS.bracketClean true false (stripTN (v.takeWhile (· != 0x23))) = true)
+    (hL : 19 ≤ L)
+    (hfit : ∀ h, hostParse idna ((stripTN v).takeWhile (fun b => !Spec.Pattern.isHostTerminator b)) false = some h →
+      (layout (ofUrl { uDummy with host := some h })).buf.length ≤ L) :
+    (match dummyParse L dummyText dummyUrl with
+     | none => none
+     | some url0 =>
+       let (url, ok) := setHostA true idna L true false 443 url0 v
+       if !ok then none else some (getHostname url)) = Spec.Pattern.canonHostname idna v := by
+  have hdp : dummyParse L dummyText dummyUrl = some dummyUrl := by
+    unfold dummyParse
+    have h1 : ¬ dummyText.length > L := by
+      have : dummyText.length = 18 := by decide
+      omega
+    have h2 : ¬ dummyUrl.buf.length > L := by
+      have : dummyUrl.buf.length = 19 := by decide
+      omega
+    simp only [h1, h2, ↓reduceIte]
+  rw [hdp]
+  simp only
+  unfold Spec.Pattern.canonHostname
+  have he : v.isEmpty = false := FS.isEmpty_false_of_ne hne
+  simp only [he, Bool.false_eq_true, ↓reduceIte]
+  have hupto : (stripTN (v.takeWhile (· != 0x23))).takeWhile (fun b => !AdaVerif.Model.UrlRec.isHardDelim true b) =
+      (stripTN v).takeWhile (fun b => !Spec.Pattern.isHostTerminator b) := by
+    rw [HS.strip_cut, takeWhile_takeWhile]
+    congr 1
+    funext b
+    exact term_split b
+  unfold setHostA
+  rw [dummyUrl_layout]
+  have hopq : (layout (ofUrl uDummy)).opq = false := rfl
+  simp only [hopq, Bool.false_eq_true, ↓reduceIte, Bool.not_false]
+  rw [HS.split_agree true _ hclean, hupto]
+  generalize hN : stripTN (v.takeWhile (· != 0x23)) = N at hupto
+  generalize hB : (stripTN v).takeWhile (fun b => !Spec.Pattern.isHostTerminator b) = buffer at hupto hfit
+  by_cases hlt : hostEnd buffer < buffer.length
+  · simp only [hlt, ↓reduceIte]
+    by_cases hem : (N.take (hostEnd buffer)).isEmpty = true
+    · simp only [hem, ↓reduceIte, Bool.not_false]
+    · simp only [hem, Bool.false_eq_true, ↓reduceIte, Bool.not_false]
+  · simp only [hlt, ↓reduceIte]
+    have htk : N.take buffer.length = buffer := by rw [← hupto]; exact take_length_takeWhile _ N
+    rw [htk]
+    by_cases hem : buffer.isEmpty = true
+    · simp [hem]
+    · have hbne : buffer ≠ [] := by simpa using hem
+      have hem' : buffer.isEmpty = false := by simpa using hem
+      simp only [hem', Bool.false_and, Bool.false_eq_true, ↓reduceIte]
+      have hsp : uDummy.isSpecial = true := by decide
+      have hpa := parseHostAgg_eq idna uDummy (credOk_of_recInv uDummy uDummy_inv) buffer hbne hid
+      rw [hsp] at hpa
+      rw [hpa]
+      simp only [Bool.not_true]
+      cases hh : hostParse idna buffer false with
+      | none => simp
+      | some h =>
+        simp only [Option.map_some]
+        rw [host_written uDummy (credOk_of_recInv uDummy uDummy_inv) h]
+        have hf := hfit h hh
+        have hng : ¬ (layout (ofUrl { uDummy with host := some h })).buf.length > L := by omega
+        simp only [hng, ↓reduceIte, Bool.not_true, Bool.false_eq_true]
+        congr 1
+        rw [getHostname_nocred _ rfl rfl]
+        · simp [ofUrl]
+        · have := PA.host_no_at idna buffer h hh
+          simpa [ofUrl] using this
 
 /-! ### the helpers -/
 theorem escape_pattern_bits : ∀ b : UInt8, (tget Gen.escapePatternTable b.toNat != 0) = Spec.Pattern.isPatternSyntax b := by
